@@ -92,7 +92,7 @@ impl BlobFile {
     /// BlobFile::is_stale compares an f32 ratio with a threshold: floating point is not modelled, so nothing is known about its result
     #[verifier::external_body]
     fn is_stale(&self, frag_map: &FragmentationMap, threshold: f32) -> bool { false }
-//@ FROM src/vlog/blob_file/mod.rs :: impl BlobFile :: fn is_dead :: OBL C09.3
+//@ FROM src/vlog/blob_file/mod.rs :: impl BlobFile :: fn is_dead :: OBL C09.3, C20.8
     fn is_dead(&self, frag_map: &FragmentationMap) -> /*+*/(r: /*-*/bool/*+*/)
         // C09.3: dead <=> an entry exists and its garbage bytes equal the file's total uncompressed bytes (exact, no rounding)
         ensures r == is_dead_spec(*self, frag_map.view())/*-*/
